@@ -190,3 +190,101 @@ func StreamRead(sr stream.Reader, t tbin.Type) (tbin.Value, error) {
 	}
 	return v, fmt.Errorf("wirex: unknown type %d", t)
 }
+
+// StreamReadSkipping walks a composite value of type t like StreamRead, except
+// that the child with index skip (struct field, list/set element, map entry
+// value together with its key) is passed over with sr.Skip instead of being
+// read. It returns the value without that child.
+func StreamReadSkipping(sr stream.Reader, t tbin.Type, skip int) (tbin.Value, error) {
+	v := tbin.Value{T: t}
+	switch t {
+	case tbin.Struct:
+		if err := sr.ReadStructBegin(); err != nil {
+			return v, err
+		}
+		for i := 0; ; i++ {
+			fh, ok, err := sr.ReadFieldBegin()
+			if err != nil {
+				return v, err
+			}
+			if !ok {
+				break
+			}
+			if i == skip {
+				if err := sr.Skip(fh.Type); err != nil {
+					return v, err
+				}
+			} else {
+				fv, err := StreamRead(sr, tbin.Type(fh.Type))
+				if err != nil {
+					return v, err
+				}
+				v.Fields = append(v.Fields, tbin.Field{ID: fh.ID, V: fv})
+			}
+			if err := sr.ReadFieldEnd(); err != nil {
+				return v, err
+			}
+		}
+		return v, sr.ReadStructEnd()
+	case tbin.Map:
+		mh, err := sr.ReadMapBegin()
+		if err != nil {
+			return v, err
+		}
+		v.KT, v.VT = tbin.Type(mh.KeyType), tbin.Type(mh.ValueType)
+		for i := 0; i < mh.Length; i++ {
+			if i == skip {
+				if err := sr.Skip(mh.KeyType); err != nil {
+					return v, err
+				}
+				if err := sr.Skip(mh.ValueType); err != nil {
+					return v, err
+				}
+				continue
+			}
+			k, err := StreamRead(sr, v.KT)
+			if err != nil {
+				return v, err
+			}
+			x, err := StreamRead(sr, v.VT)
+			if err != nil {
+				return v, err
+			}
+			v.Items = append(v.Items, k, x)
+		}
+		return v, sr.ReadMapEnd()
+	case tbin.Set, tbin.List:
+		var n int
+		if t == tbin.Set {
+			sh, err := sr.ReadSetBegin()
+			if err != nil {
+				return v, err
+			}
+			v.VT, n = tbin.Type(sh.Type), sh.Length
+		} else {
+			lh, err := sr.ReadListBegin()
+			if err != nil {
+				return v, err
+			}
+			v.VT, n = tbin.Type(lh.Type), lh.Length
+		}
+		for i := 0; i < n; i++ {
+			if i == skip {
+				if err := sr.Skip(wire.Type(v.VT)); err != nil {
+					return v, err
+				}
+				continue
+			}
+			x, err := StreamRead(sr, v.VT)
+			if err != nil {
+				return v, err
+			}
+			v.Items = append(v.Items, x)
+		}
+		if t == tbin.Set {
+			return v, sr.ReadSetEnd()
+		}
+		return v, sr.ReadListEnd()
+	}
+	return v, fmt.Errorf("wirex: %d is not a composite type", t)
+}
